@@ -142,6 +142,7 @@ func (f *Frame) instr(ins ssa.Instruction, st *State) bool {
 		f.vals[x] = Val{T: r, Go: x.Type()}
 	case *ssa.MakeChan:
 		f.vals[x] = Val{T: un.allocRef(st, "mkchan"), Go: x.Type()}
+		f.runGhostHooks("makechan", map[string]Val{"size": f.val(x.Size, st), "result": f.vals[x]}, st)
 	case *ssa.MakeClosure:
 		var bind []Val
 		for _, b := range x.Bindings {
